@@ -809,26 +809,26 @@ impl World {
         let retired = owning_iovec::verif::retired_chunks();
         let pool = pool().as_ptr_range();
         let (pool_start, pool_end) = (pool.start as usize, pool.end as usize);
-        let classify = |start: usize, len: usize, what: &str| -> Result<bool, Fail> {
+        let classify = |start: usize, len: usize, what: &dyn Fn() -> String| -> Result<bool, Fail> {
             let end = start + len;
             if start >= pool_start && end <= pool_end {
                 return Ok(false);
             }
             for r in &retired {
                 if start < r.start + r.len && r.start < end {
-                    return Err(fail("memory:released-chunk", format!("{what}: {len} bytes at {start:#x} lie in arena chunk #{} which has been released", r.id)));
+                    return Err(fail("memory:released-chunk", format!("{}: {len} bytes at {start:#x} lie in arena chunk #{} which has been released", what(), r.id)));
                 }
             }
             if live.iter().any(|c| start >= c.start && end <= c.start + c.len) {
                 return Ok(true);
             }
-            Err(fail("memory:not-live", format!("{what}: {len} bytes at {start:#x} lie neither in a caller buffer nor inside one live arena chunk")))
+            Err(fail("memory:not-live", format!("{}: {len} bytes at {start:#x} lie neither in a caller buffer nor inside one live arena chunk", what())))
         };
         for (si, s) in self.slots.iter().enumerate() {
             let mut owned: Vec<(usize, usize)> = vec![];
             for (k, x) in s.io.stable_prefix().iter().enumerate() {
                 let start = x.as_ptr() as usize;
-                if classify(start, x.len(), &format!("slot {si} slice {k}"))? {
+                if classify(start, x.len(), &|| format!("slot {si} slice {k}"))? {
                     owned.push((start, start + x.len()));
                 }
             }
@@ -847,7 +847,7 @@ impl World {
             }
             if !sl.is_empty() {
                 let start = sl.as_ptr() as usize;
-                classify(start, sl.len(), &format!("held anchored slice {hi}"))?;
+                classify(start, sl.len(), &|| format!("held anchored slice {hi}"))?;
                 by_origin.push((start, start + sl.len(), h.origin));
             }
         }
@@ -1007,24 +1007,44 @@ fn op_name(op: &Op) -> &'static str {
 
 /// Address classification against the live-chunk registry, for checks outside
 /// the state machine.  `lent` are caller-owned buffers whose borrow is in force.
-/// Returns whether the range is arena-owned.
-pub fn classify_range(start: usize, len: usize, lent: &[(usize, usize)], what: &str) -> Result<bool, Fail> {
-    if len == 0 {
-        return Ok(false);
-    }
-    let end = start + len;
-    if lent.iter().any(|(s, e)| start >= *s && end <= *e) {
-        return Ok(false);
-    }
-    for r in owning_iovec::verif::retired_chunks() {
-        if start < r.start + r.len && r.start < end {
-            return Err(fail("memory:released-chunk", format!("{what}: {len} bytes at {start:#x} lie in arena chunk #{} which has been released", r.id)));
+/// Returns whether the range is arena-owned.  `what` describes the slice; it is
+/// only rendered when the check fails (this is a hot path).
+pub fn classify_range(start: usize, len: usize, lent: &[(usize, usize)], what: &dyn Fn() -> String) -> Result<bool, Fail> {
+    Registry::snapshot().classify(start, len, lent, what)
+}
+
+/// One snapshot of the chunk registry, for checking many ranges.
+pub struct Registry {
+    live: Vec<owning_iovec::verif::ChunkInfo>,
+    retired: Vec<owning_iovec::verif::ChunkInfo>,
+}
+
+impl Registry {
+    pub fn snapshot() -> Self {
+        Registry {
+            live: owning_iovec::verif::live_chunks(),
+            retired: owning_iovec::verif::retired_chunks(),
         }
     }
-    if owning_iovec::verif::live_chunks().iter().any(|c| start >= c.start && end <= c.start + c.len) {
-        return Ok(true);
+
+    pub fn classify(&self, start: usize, len: usize, lent: &[(usize, usize)], what: &dyn Fn() -> String) -> Result<bool, Fail> {
+        if len == 0 {
+            return Ok(false);
+        }
+        let end = start + len;
+        if lent.iter().any(|(s, e)| start >= *s && end <= *e) {
+            return Ok(false);
+        }
+        for r in &self.retired {
+            if start < r.start + r.len && r.start < end {
+                return Err(fail("memory:released-chunk", format!("{}: {len} bytes at {start:#x} lie in arena chunk #{} which has been released", what(), r.id)));
+            }
+        }
+        if self.live.iter().any(|c| start >= c.start && end <= c.start + c.len) {
+            return Ok(true);
+        }
+        Err(fail("memory:not-live", format!("{}: {len} bytes at {start:#x} lie neither in a caller buffer nor inside one live arena chunk", what())))
     }
-    Err(fail("memory:not-live", format!("{what}: {len} bytes at {start:#x} lie neither in a caller buffer nor inside one live arena chunk")))
 }
 
 /// Runs `f` with quarantine on, releasing it afterwards.
